@@ -54,6 +54,9 @@ type Sched struct {
 
 var S *Sched
 
+// MaxEvents bounds one run: the modelled programs need a few dozen events; a run that goes on is a livelock.
+var MaxEvents = 20000
+
 func New() *Sched { S = &Sched{report: make(chan *G)}; return S }
 
 // Note appends a free-form event to the trace (not a scheduling point).
@@ -175,6 +178,9 @@ func (s *Sched) Run(choose func(n int) int) string {
 		}
 		if allDone {
 			return ""
+		}
+		if len(s.Trace) > MaxEvents {
+			return fmt.Sprintf("LIVELOCK: more than %d events without the readers finishing", MaxEvents)
 		}
 		en := s.enabled()
 		if len(en) == 0 {
